@@ -64,6 +64,10 @@ def rule_identifier_table(ck: Check, repo: Repo, rid: str = "R1") -> None:
                     return ("or", f"{base}_id", f"{base}_stripped") if added else f"{base}_id"
                 if text in (f"{{identifier, {STRIP}}}.intersection({coll})", f"{{{STRIP}, identifier}}.intersection({coll})"):
                     return ("or", f"{base}_id", stripped(base))
+                if text in (f"{{identifier, {STRIP}}}.isdisjoint({coll})", f"{{{STRIP}, identifier}}.isdisjoint({coll})"):
+                    return ("not", ("or", f"{base}_id", stripped(base)))       # isdisjoint = no intersection
+                if text == f"{{identifier}}.isdisjoint({coll})":
+                    return ("not", ("or", f"{base}_id", f"{base}_stripped")) if added else ("not", f"{base}_id")
                 if text == f"identifier in {coll}":
                     return f"{base}_id"
                 if text == f"identifier not in {coll}":
@@ -373,6 +377,9 @@ def rule_scan(ck: Check, repo: Repo) -> None:
     class H2(Hooks):
         def atom(self, text, node, it):
             t = text
+            # Path(Path(x)) is Path(x): the redundant wrapper may be there or not
+            if "Path(Path(path_str))" not in t:
+                t = t.replace("Path(path_str)", "Path(Path(path_str))") if re.match(r"Path\(path_str\)\.(exists\(\)|is_dir\(\)|suffix == '\.license')$", t) else t
             if t == "Path(Path(path_str)).exists()":
                 return "exists"
             if t == "Path(Path(path_str)).is_dir()":
